@@ -3,26 +3,47 @@ Obligations whose label carries a property tag (`C07:...`, `C02+C10:...`) count 
 untagged obligations of a unit (definedness, types, frames, pre-call, loop obligations) count for every property
 that lists the unit."""
 
-U = lambda q, rc=None: (q, rc)
 
-KERNEL_NEXT_EVENT = [U("Node.decide_next_event"), U("Node.update_next_end_service_with_server"),
-                     U("Node.update_next_end_service_without_server")]
+def U(q, rc=None):
+    return (q, rc)
+
+
+NEXT_EVENT = [U("Node.decide_next_event"), U("Node.update_next_end_service_with_server"),
+              U("Node.update_next_end_service_without_server"), U("Node.update_next_renege_time"),
+              U("Node.update_next_event_date")]
+START = [U("Node.begin_service_if_possible_accept"), U("Node.begin_service_if_possible_release"),
+         U("Node.begin_interrupted_individuals_service")]
+TRANSFER = [U("Node.accept"), U("Node.release"), U("Node.renege"), U("Node.release_blocked_individual"),
+            U("Node.finish_service"), U("ExitNode.accept")]
+KERNELS = [U("FIFO"), U("LIFO"), U("SIRO"), U("random_choice"), U("flatten_list"), U("Distribution._sample"),
+           U("Node.find_free_server"), U("Node.choose_next_customer"), U("Node.all_individuals"),
+           U("Simulation.find_next_active_node"), U("ArrivalNode.find_next_event_date"), U("Node.block_individual"),
+           U("Node.change_customer_class"), U("Node.find_next_class_change"), U("Node.decide_class_change")]
 
 PROPS = {
-    "C01": dict(units=[U("ExitNode.accept"), U("Node.accept")]),
-    "C02": dict(units=[U("Simulation.find_next_active_node"), U("ArrivalNode.find_next_event_date")] + KERNEL_NEXT_EVENT),
-    "C04": dict(units=[U("Node.find_free_server")]),
-    "C05": dict(units=[U("Node.find_free_server"), U("Node.choose_next_customer")]),
-    "C07": dict(units=[U("Node.block_individual"), U("Node.update_next_end_service_with_server"),
-                       U("Node.update_next_end_service_without_server")]),
-    "C08": dict(units=[U("FIFO"), U("LIFO"), U("SIRO"), U("Node.choose_next_customer")]),
-    "C09": dict(units=[U("random_choice"), U("Node.change_customer_class"), U("Node.find_next_class_change")]),
-    "C10": dict(units=[U("Distribution._sample"), U("ArrivalNode.find_next_event_date")]),
-    "C12": dict(units=[U("Node.decide_next_event"), U("Node.update_next_end_service_without_server")]),
-    "C13": dict(units=[U("Node.decide_next_event")]),
-    "C14": dict(units=[U("Simulation.find_next_active_node"), U("Node.find_next_class_change"), U("Node.all_individuals"),
-                       U("flatten_list"), U("ExitNode.accept")] + KERNEL_NEXT_EVENT),
+    "C01": dict(units=TRANSFER),
+    "C02": dict(units=[U("Simulation.find_next_active_node"), U("ArrivalNode.find_next_event_date")] + NEXT_EVENT + START +
+                [U("Node.release"), U("Node.renege"), U("Node.decide_class_change")]),
+    "C03": dict(units=[U("Node.release"), U("Node.renege"), U("Node.finish_service"), U("Node.accept")]),
+    "C04": dict(units=[U("Node.find_free_server"), U("Node.release")] + START),
+    "C05": dict(units=[U("Node.find_free_server"), U("Node.choose_next_customer"), U("Node.accept"),
+                       U("Node.begin_service_if_possible_accept"), U("Node.begin_service_if_possible_release")]),
+    "C06": dict(units=[U("Node.release"), U("Node.finish_service"), U("Node.accept"), U("Node.release_blocked_individual")]),
+    "C07": dict(units=[U("Node.block_individual"), U("Node.finish_service"), U("Node.release"), U("Node.release_blocked_individual"),
+                       U("Node.accept"), U("Node.update_next_end_service_with_server"),
+                       U("Node.update_next_end_service_without_server"), U("Node.begin_interrupted_individuals_service")]),
+    "C08": dict(units=[U("FIFO"), U("LIFO"), U("SIRO"), U("Node.choose_next_customer"), U("Node.begin_service_if_possible_release")]),
+    "C09": dict(units=[U("random_choice"), U("Node.change_customer_class"), U("Node.find_next_class_change"),
+                       U("Node.decide_class_change"), U("Node.release"), U("Node.renege"), U("Node.finish_service")]),
+    "C10": dict(units=[U("Distribution._sample"), U("ArrivalNode.find_next_event_date"), U("Node.decide_class_change")] + START),
+    "C11": dict(units=[U("Node.begin_interrupted_individuals_service")]),
+    "C12": dict(units=[U("Node.decide_next_event"), U("Node.update_next_end_service_without_server"), U("Node.update_next_event_date"),
+                       U("Node.begin_interrupted_individuals_service"), U("Node.begin_service_if_possible_release"),
+                       U("Node.release_blocked_individual")]),
+    "C13": dict(units=[U("Node.decide_next_event"), U("Node.update_next_renege_time"), U("Node.update_next_event_date"),
+                       U("Node.renege"), U("Node.begin_service_if_possible_accept"), U("Node.accept")]),
+    "C14": dict(units=KERNELS + NEXT_EVENT + START + TRANSFER),
     "C16": dict(units=[U("Simulation.find_next_active_node")]),
-    "C17": dict(units=[U("Node.block_individual"), U("Node.change_customer_class")]),
+    "C17": dict(units=[U("Node.block_individual"), U("Node.change_customer_class"), U("Node.accept"), U("Node.release"), U("Node.renege")]),
     "C18": dict(units=[U("Node.block_individual")]),
 }
